@@ -174,7 +174,11 @@ def chains(rep):
     rep.add_tlc("Gen_Chain", g)
     NOZ = {"name": "", "off": 0}
     cases, metas = [], []
-    for ci, c in enumerate(sorted(g.cases, key=lambda x: json_key(x))):
+    seqs = [c for c in g.cases if c["lines"][-1]["form"] == "dur_seq"]
+    if len(seqs) < 30:
+        raise ToolError("Gen_Chain: no dur_seq programs")
+    duration_sequences(rep, sorted(seqs, key=lambda x: json_key(x)))
+    for ci, c in enumerate(sorted((x for x in g.cases if x["lines"][-1]["form"] != "dur_seq"), key=lambda x: json_key(x))):
         l1, l2 = c["lines"]
         rhs, ph = l1["rhs"], l2["phrase"]
         name = " ".join(l1["name"])
@@ -218,12 +222,14 @@ def chains(rep):
         else:
             second = "%s %s %d %s" % (name, ph["op"], ph["n"], "days" if ph["n"] != 1 else "day")
         texts = ["%s = %s" % (name, first), second]
-        cases.append({"id": "ch%d.text" % ci, "cfg": CFG, "steps": [{"op": "execute", "lang": "en", "text": "\n".join(texts)}]})
+        ccfg = CFG if c["tz"]["off"] == 0 else render.cfg_with(tz=c["tz"]["name"], tz_off=c["tz"]["off"])
+        c["_cfg"] = ccfg
+        cases.append({"id": "ch%d.text" % ci, "cfg": ccfg, "steps": [{"op": "execute", "lang": "en", "text": "\n".join(texts)}]})
         metas.append((c, texts, "text"))
         steps = [{"op": "session_new", "s": "s"}, {"op": "set_language", "s": "s", "lang": "en"}]
         for t in texts:
             steps += [{"op": "set_text", "s": "s", "text": t}, {"op": "execute_session", "s": "s"}]
-        cases.append({"id": "ch%d.sess" % ci, "cfg": CFG, "steps": steps})
+        cases.append({"id": "ch%d.sess" % ci, "cfg": ccfg, "steps": steps})
         metas.append((c, texts, "session"))
         if rhs["form"] == "date_shift" and f in ("date_diff", "date_shift"):
             # a calendar date held by a name stays that calendar date when the default zone is changed between the two lines
@@ -248,13 +254,58 @@ def chains(rep):
         rep.replayed += 1
         for i, (exp, slot) in enumerate(zip(c["expected"], slots)):
             if slot is not None:
-                forms.project_extra(slot, {"lang": "en", "cfg": CFG})
+                forms.project_extra(slot, {"lang": "en", "cfg": c["_cfg"]})
             if not compare.match_slot(exp, slot):
                 kind = compare.failure_kind(slot, steps[0] if steps else o)
-                rep.violation({"check": "replay", "form": "chain", "text": texts, "mode": mode, "line_index": i, "cfg": CFG, "expected": c["expected"], "observed": slots,
+                rep.violation({"check": "replay", "form": "chain", "text": texts, "mode": mode, "line_index": i, "cfg": c["_cfg"], "expected": c["expected"], "observed": slots,
                                "feat": {"failure": kind, "form": "chain", "phrase": c["lines"][1]["phrase"]["form"], "first": c["lines"][0]["rhs"]["form"], "mode": mode},
                                "class": "%s|chain|%s then %s|%s|line%d" % (kind, c["lines"][0]["rhs"]["form"], c["lines"][1]["phrase"]["form"], mode, i + 1)})
                 break
+
+
+def duration_sequences(rep, progs):
+    """durations held by names, written next to each other and mixed with written-out durations (C10: they add; C03: a name
+    denotes its value): Gen_Chain's `dur_seq` programs, each as one text and through a session line by line"""
+    import forms
+    from props import c10
+    cases, metas = [], []
+    for ci, c in enumerate(progs):
+        texts = []
+        for li, l in enumerate(c["lines"]):
+            if l["form"] == "assign":
+                texts.append("%s = %s" % (" ".join(l["name"]), c10.renderings(l["rhs"], "en", True, ci + li)[0][1]))
+            else:
+                texts.append(" ".join(" ".join(it["name"]) if "name" in it else render.dur_parts_text(it["parts"], "en", ci) for it in l["items"]))
+        cases.append({"id": "ds%d.text" % ci, "cfg": CFG, "steps": [{"op": "execute", "lang": "en", "text": "\n".join(texts)}]})
+        metas.append((c, texts, "text"))
+        steps = [{"op": "session_new", "s": "s"}, {"op": "set_language", "s": "s", "lang": "en"}]
+        for t in texts:
+            steps += [{"op": "set_text", "s": "s", "text": t}, {"op": "execute_session", "s": "s"}]
+        cases.append({"id": "ds%d.sess" % ci, "cfg": CFG, "steps": steps})
+        metas.append((c, texts, "session"))
+    obs = run_harness_stable_day(cases, "c03.durseq", jobs=4)
+    for (c, texts, mode), o in zip(metas, obs):
+        steps = o.get("steps") or []
+        n = len(texts)
+        if mode == "text":
+            ss = proj.slots_of_step(steps[0]) if steps else None
+            slots = ss[1] if ss and ss[0] and len(ss[1]) == n else [None] * n
+        else:
+            slots = []
+            for k in range(3, 3 + 2 * n, 2):
+                ss = proj.slots_of_step(steps[k]) if len(steps) > k else None
+                slots.append(ss[1][0] if ss and ss[0] and len(ss[1]) == 1 else None)
+        rep.case(["durseq", texts, mode], True)
+        rep.replayed += 1
+        for i, (exp, slot) in enumerate(zip(c["expected"], slots)):
+            if not compare.match_slot(exp, slot):
+                kind = compare.failure_kind(slot, steps[0] if steps else o)
+                rep.violation({"check": "replay", "form": "chain", "text": texts, "mode": mode, "line_index": i, "cfg": CFG, "expected": c["expected"], "observed": slots,
+                               "feat": {"failure": kind, "form": "chain", "phrase": "dur_seq", "first": "dur_lit", "mode": mode, "items": len(c["lines"][-1]["items"])},
+                               "class": "%s|chain|dur_seq|%s|items=%d|line%d" % (kind, mode, len(c["lines"][-1]["items"]), i + 1)})
+                break
+    if cases:
+        rep.sample({"duration_sequence": metas[0][1]})
 
 
 def json_key(x):
